@@ -379,7 +379,8 @@ func addNestedDefs(r *rand.Rand, p *Program) {
 			// white space that is none for the definition pattern (`\S+` is ASCII): part of the value, at either end
 			"\u00a0", "\u3000|,", "x\u0085", "y\x0b", "\x0bz", "\u2003w\u2003"})
 		if d > 0 && chance(r, 0.6) {
-			val = pick(r, []string{"", "p", "(?:"}) + "{{" + names[r.Intn(d)] + "}}" + pick(r, []string{"", "q", ")?"})
+			ref := "{{" + names[r.Intn(d)] + "}}"
+			val = pick(r, []string{"", "p", "(?:"}) + ref + pick(r, []string{"", "", "-" + ref, ref}) + pick(r, []string{"", "q", ")?"})
 			if strings.HasPrefix(val, "(?:") && !strings.HasSuffix(val, ")?") {
 				val += ")"
 			}
@@ -540,6 +541,20 @@ func genParserCases(focus string) func(r *rand.Rand, tier string, env *Env) []Ca
 				}
 				args := append(append(append([][]byte{}, empty...), []byte(prog)), bf...)
 				cases = append(cases, Case{Kind: "big-include", Ops: []Op{{"parse.run", args[6:]}}, Oracles: []Op{{"parser.inline", args}}})
+				// … and one above 64 KiB (the default token limit of bufio.Scanner, the size of more than one default buffer of
+				// everything else), included at the top level and through another file
+				var huge strings.Builder
+				for w := 0; huge.Len() < 66000+r.Intn(9000); w++ {
+					fmt.Fprintf(&huge, "h%05dq%d\n", w*7919%100000, w%11)
+				}
+				hf := append(append([][]byte{}, files...), []byte("i"), []byte("hugewords.ra"), []byte(huge.String()), []byte("i"), []byte("viahuge.ra"), []byte("pre\n##!> include hugewords\npost\n"),
+					[]byte("e"), []byte("bigskip.ra"), []byte(skip.String()))
+				hprog := pick(r, []string{"first\n##!> include hugewords\nlast\n", "##!> include viahuge\n"})
+				if focus == "except" {
+					hprog = "first\n##!> include-except hugewords bigskip\nlast\n"
+				}
+				hargs := append(append(append([][]byte{}, empty...), []byte(hprog)), hf...)
+				cases = append(cases, Case{Kind: "include-above-64KiB", Ops: []Op{{"parse.run", hargs[6:]}}, Oracles: []Op{{"parser.inline", hargs}}})
 			}
 			{
 				// a big include file (two or more buffer-fulls) that itself includes other files before its own end:
@@ -597,6 +612,22 @@ func genParserCases(focus string) func(r *rand.Rand, tier string, env *Env) []Ca
 		}
 		if focus == "except" {
 			cases = append(cases, sharedDefinitionCases("parser.inline")...)
+		}
+		if focus == "defs" {
+			// a value that mentions the same definition more than once, itself mentioned by a third definition (chains of
+			// three and four levels, every alphabetical order of the names)
+			empty := [][]byte{{}, {}, {}, {}, {}, {}}
+			for _, nm := range [][3]string{{"q", "quoted", "wrapped"}, {"c", "b", "a"}, {"a", "b", "c"}, {"m", "z", "k"}} {
+				for _, prog := range []string{
+					"##!> define " + nm[0] + " [0-9]\n##!> define " + nm[1] + " {{" + nm[0] + "}}[a-z]+{{" + nm[0] + "}}\n##!> define " + nm[2] + " <{{" + nm[1] + "}}>\nx{{" + nm[2] + "}}y\n",
+					"##!> define " + nm[2] + " <{{" + nm[1] + "}}{{" + nm[1] + "}}>\n##!> define " + nm[1] + " {{" + nm[0] + "}}-{{" + nm[0] + "}}-{{" + nm[0] + "}}\n##!> define " + nm[0] + " v\n{{" + nm[2] + "}}|{{" + nm[1] + "}}\n",
+					"##!> define " + nm[0] + " 1\n##!> define " + nm[1] + " {{" + nm[0] + "}}{{" + nm[0] + "}}\n##!> define " + nm[2] + " {{" + nm[1] + "}}{{" + nm[0] + "}}{{" + nm[1] + "}}\n##!> define top ({{" + nm[2] + "}})\n{{top}}\n",
+				} {
+					args := append(append([][]byte{}, empty...), []byte(prog))
+					cases = append(cases, Case{Kind: "repeated-reference", Ops: []Op{{"parse.run", args[6:]}, {"gen.run", args}},
+						Oracles: []Op{{"parser.inline", args}, {"parser.defperm", append([][]byte{bytes.Repeat([]byte{'x'}, 6)}, args...)}}})
+				}
+			}
 		}
 		if focus == "defs" || focus == "include" {
 			// definitions of the including file reach the text of included files — also when the including file has
